@@ -29,10 +29,10 @@ CLAIMS = {
          "Decides for every g in B_D (D=1,2,3: 2, 8, 48 elements), boxes with pairwise distinct extents and extent 1, k<=3, both parities and the three entry points (array, GeometricImage, MultiImage with 0-2 leading axes) that the result equals det(g)^p g^{(x)k} A(g^-1(x'-c')+c) element for element, that D,k,p are kept and that extents and per-axis boundary flags are carried with their axes; composition on sampled pairs; make_all_operators returns exactly the signed permutation matrices.",
          "Trusted: einsum and integer-array indexing semantics as modelled. Identity, inverse, linearity, bijection and norm preservation are corollaries of the defining formula and not re-derived. Shapes are a finite set (not symbolic).", "3/C02"),
  "C14": ("abstract interpretation (per-leading-index result == single-image operation) + AST call-graph rule for cross-batch collectives",
-         "Decides for 0-3 leading axes and D=1..3 that times_group_element, norm, average_pool, to_images and (batch_)get_component give at each leading index exactly the single-image operation on that image, and that no jax.lax collective or named batch axis is used by layers/models except BatchNorm under its use_batch_norm guard.",
+         "Decides for 0-3 leading axes and D=1..3 that times_group_element, norm, average_pool, to_images and (batch_)get_component give at each leading index exactly the single-image operation on that image (component selection against the documented order: sorted types, channel-major, tensor-minor, per time step), and that no jax.lax collective or named batch axis is used by layers/models except BatchNorm under its use_batch_norm guard.",
          "Trusted: jax.vmap applies its function independently per entry (so per-entry independence of vmapped models reduces to the absence of collectives); BatchNorm is cross-batch by design.", "3/C14"),
- "C19": ("control-flow path enumeration of the stop methods normalised to roles and compared with the stated transition function + KIND (isinstance class-table evaluation of early-exit guards) + AST role rules on train()",
-         "Decides the patience-based conditions as a transition function (strict `loss < best - min_delta` on the monitored argument; on improvement best:=loss, best_model:=model, counter:=0; otherwise counter+=1 only; result counter>patience) and EpochStop (best_model:=model on every path, result epoch>=epochs); since every history is a sequence of such transitions the all-histories quantifier is discharged by induction, with no length bound. KIND decides that no early-exit guard diverts a Python float, NumPy float32/float64 scalar or JAX scalar. train(): roles of the stop() arguments, one epoch increment per iteration, returns stop_condition.best_model.",
+ "C19": ("abstract interpretation of the stop methods from one representative of every order type of (loss, best, best-min_delta) x (counter, patience) x value kind, compared with the stated transition function (induction over histories) + control-flow path enumeration / KIND class table as a second, syntactic view + AST role rules on train()",
+         "Decides the patience-based conditions as a transition function, semantically (any re-formulation of the method is interpreted, for Python floats, NumPy float32/float64 scalars and JAX scalars alike) and syntactically (strict `loss < best - min_delta` on the monitored argument; on improvement best:=loss, best_model:=model, counter:=0; otherwise counter+=1 only; result counter>patience) and EpochStop (best_model:=model on every path, result epoch>=epochs); since every history is a sequence of such transitions the all-histories quantifier is discharged by induction, with no length bound. KIND decides that no early-exit guard diverts a Python float, NumPy float32/float64 scalar or JAX scalar. train(): roles of the stop() arguments, one epoch increment per iteration, returns stop_condition.best_model.",
          "Trusted: real-number semantics of < on losses (NaN not considered); float()/item() preserve the value; the isinstance class table (float ⊇ {Python float, np.float64}, np.floating ⊇ NumPy float scalars, jax.Array ⊇ JAX scalars). Real training runs are not executed.", "3/C19"),
  "C04": ("abstract interpretation of the repo's AST down to a modelled lax.conv_general_dilated, over a polynomial element domain (result == direct-sum definition as a polynomial identity)",
          "Decides for every swept option combination (5 padding kinds, all 2^D torus-flag patterns for D=2, stride, filter dilation, image dilation, odd/even/non-square filters, several channels and batch entries, tensor orders, D=2,3) that convolve / convolve_contract / convolve_with / average_pool produce exactly the bilinear polynomial of the statement's direct sum with the standard output size; identities of polynomials hold for all real inputs. Even filters with TORUS/SAME/default padding must be rejected.",
@@ -61,11 +61,11 @@ CLAIMS = {
  "C20": ("shape/type-level abstract interpretation of model constructors and __call__ over the constructor box (output signature == requested signature; abstract shape errors) + tracked flatten/unflatten round trip",
          "Decides for the swept constructor box in equivariant and conventional mode (classes, depth, blocks, down-samplings, convolutions per level, normalisation incl. batch norm, bias, activation, kernel size, D=2,3, non-square extents, mixed flags, signatures with several types, pseudo-types and unequal channels) that the output holds exactly the requested types, channel counts and order with the input's spatial shape, D and flags; internal channel/shape inconsistencies surface as abstract errors at the offending statement.",
          "Trusted: shape summaries of eqx.nn.Conv/ConvTranspose/GroupNorm/BatchNorm; banks contain every needed filter type (the 'reachable through present filters' clause is only exercised with complete banks); equivariant group norm is documented as unavailable for k>1.", "3/C20"),
- "C09": ("taint analysis by abstract interpretation (symbols passing through stop_gradient are renamed; no output may depend on an unwrapped filter-bank symbol) + AST who-may-write and train_step/train role rules; parameter-generic equivariance from C06-C08",
+ "C09": ("taint analysis by abstract interpretation (symbols passing through stop_gradient are renamed; no output may depend on an unwrapped filter-bank symbol) + AST who-may-write and train_step/train role rules + a compact set of the parameter-generic equivariance obligations of C06-C08 (all learnable parameters symbolised)",
          "Decides the structural part that makes the guarantee independent of the parameter values: every dependence of a layer or network output on the invariant filter bank passes through jax.lax.stop_gradient (so the bank's gradient is identically zero and an optimiser changes it at most by weight decay's common rescaling), the bank field is written only in ConvContract.__init__, the gradient is taken at and with respect to the model argument, and the model is changed only through optim.update + eqx.apply_updates; together with C06-C08 (equivariance for every value of every other learnable leaf) the returned model is equivariant after any training history.",
          "Trusted: optax/equinox update semantics (leaf values change, structure and static fields do not; weight decay is a common rescaling); zero-gradient leaves are not moved otherwise. No training run is executed.", "3/C09"),
- "C03": ("exact partial evaluation of the data-free generator in the abstract interpreter (rational arithmetic) + exact linear algebra on the amplitude matrix (invariance, rank, character-formula dimension) + AST/CF rules on the rescaling tail and the pass-through wrappers",
-         "Decides exactly, for B_D, the rotation subgroup, the axis-flip group, C4 and the trivial group, D=2,3, odd and even M, k up to 4 (thorough), both parities, that the rows that become filters are each fixed by every group element, linearly independent over Q, and as many as the dimension of the fixed subspace given by the character formula -- hence a basis of the invariant filters; AST rules decide that the remainder of the function and normalize/rectify only rescale by non-zero factors or permute, that filters carry the function's parity and D, and that the wrappers drop nothing.",
+ "C03": ("exact partial evaluation of the data-free generator in the abstract interpreter (rational arithmetic) + exact linear algebra on the amplitude matrix (invariance, rank, character-formula dimension) + AST/CF rules on the rescaling tail, the pass-through wrappers and memoisation keys (CACHE)",
+         "Decides exactly, for B_D, the rotation subgroup, the axis-flip group, C4 and the trivial group, D=2,3, odd and even M, k up to 4 (thorough), both parities, that the rows that become filters are each fixed by every group element, linearly independent over Q, and as many as the dimension of the fixed subspace given by the character formula -- hence a basis of the invariant filters; AST rules decide that the remainder of the function and normalize/rectify only rescale by non-zero factors or permute, that filters carry the function's parity and D, that the wrappers drop nothing, and (CACHE) that every memoisation key in the generator and symbol modules determines the memoised result, so a second call with another group/size cannot receive a stale family.",
          "Trusted: the real float32 run reproduces the exact small-integer group average and np.unique separates exactly equal rows; callers pass a group. The generator has no data input, so its exact evaluation over the configuration box is a decision for those instances, not a sample of a continuous quantifier.", "3/C03"),
 }
 
